@@ -11,11 +11,11 @@ Definition Qsqrt (q : Q) : Q :=
    whose Python .derivative(x) returns the linear operator d |-> (3 x^2 - 1) * d *)
 Definition cubic (a : Q) : Q := Qred (a * a * a - a).
 Definition cubic' (a : Q) : Q := Qred (3 * a * a - 1).
-Definition primsQ : prims Q := {|
+Definition primsQv (v : bool) : prims Q := {|
   tr := fun _ _ => 0; rt := Qsqrt;
   afun := fun _ x => map cubic x;
   ader := fun _ x0 d => vmul (map cubic' x0) d;
-  adom := fun k => SV k; aran := fun k => SV k |}.
+  adom := fun k => SV k; aran := fun k => SV k; rsv := v |}.
 
 Definition atol : Q := 1 # 1000000000.
 Definition rtol : Q := 1 # 1000000000.
@@ -76,12 +76,14 @@ Inductive dres :=
 
 Record case := {
   c_e : oexpr (T:=Q);       (* the operator, serialised from the Python object *)
+  c_rsv : bool;             (* measured variant of OperatorRightScalarMult.derivative *)
   c_x : list Q; c_d : list Q;
   c_lin : bool;             (* op.is_linear *)
   c_val : list Q;           (* op(x) *)
   c_der : dres }.
 
 Definition check (k : case) : bool :=
+  let primsQ := primsQv (c_rsv k) in
   let e := c_e k in let x := c_x k in
   wt primsQ e && Nat.eqb (length x) (sdim (dom primsQ e)) && Nat.eqb (length (c_d k)) (sdim (dom primsQ e))
   && beq (is_lin e) (c_lin k)
@@ -116,7 +118,7 @@ Fixpoint lookup (g : ufn) (tab : list (ufn * list Q)) : option (list Q) :=
 Definition prims_at (tab : list (ufn * list Q)) (i : nat) : prims Q := {|
   tr := fun g _ => match lookup g tab with Some v => nth i v 0 | None => 0 end;
   rt := fun _ => match lookup Usqrt tab with Some v => nth i v 0 | None => 0 end;
-  afun := fun _ x => x; ader := fun _ _ d => d; adom := fun k => SV k; aran := fun k => SV k |}.
+  afun := fun _ x => x; ader := fun _ _ d => d; adom := fun k => SV k; aran := fun k => SV k; rsv := false |}.
 (* UApp g e with e <> UPoint is only supported for the rational ufuncs *)
 Fixpoint uex_supported (e : uex) : bool :=
   match e with
